@@ -166,5 +166,6 @@ type Obligation struct {
 	Vacuity bool // a satisfiability (must be sat) check rather than a validity check
 	Parts   []*Obligation // for a grouped conjunction: the conjuncts, discharged one by one when the group does not go through
 	ViaGroup bool
+	CrossChecked int // thorough tier: number of other solvers that confirmed the answer
 	AxiomsUsed []string
 }
